@@ -260,7 +260,7 @@ def model_phases(spec, nodes) -> dict:
     return out
 
 
-def check_c04(rec, nodes, spec) -> Verdict:
+def check_c04(rec, nodes, spec, live_nodes: bool = True) -> Verdict:
     """4.5 start-time law, re-evaluated independently from the record (SIMULATED clock)."""
     import rex.constants as const
 
@@ -272,7 +272,7 @@ def check_c04(rec, nodes, spec) -> Verdict:
     except RecursionError:
         mph = {}
     for v, p in mph.items():
-        if isinstance(v, tuple):
+        if isinstance(v, tuple) or not live_nodes:  # live_nodes=False: the node objects were reconfigured after this episode
             continue
         if abs(float(nodes[v].phase) - p) > 1e-9:
             V.v("4.5-phase-differs-from-configured-longest-delay-path", node=v, phase=float(nodes[v].phase), expected=p)
